@@ -23,6 +23,7 @@ def run(tier, seed):
     enginecommon.longhist_stage(v, wd, seed, "engine", runs, nops)
     v.assumptions += ["the reloaded engine gets the caller's tags before loading and the same resources after it",
                       "equality is checked both against the Ideal (both engines must give an allowed answer) and literally (reloaded == original)"]
+    vlib.scale_stage(v, wd, "C08")
     return v.finish("model_checking",
                     "network: all lists of <= %d rules from 29 rules (one per rule shape) x tag sets x 8 requests, on the original engine and on an engine "
                     "loaded from its image; cosmetic: the c16 (scoping), c18 (scriptlets/permissions) and c17b (class/id buckets) universes, every case "
